@@ -1053,6 +1053,9 @@ class Engine:
 
     def st_For(self, st, fr):
         it = self.ev(st.iter, fr)
+        if isinstance(it, DictObj) and it.has is not None:
+            from pyvc import lib as _lib0
+            it = _lib0.DictItems(it, keys_only=True)          # iterating a dictionary iterates its keys
         items = self.concrete_items(it)
         if items is not None:
             for x in items:
@@ -1239,7 +1242,10 @@ class Engine:
             kx = z3.Const(self.fresh_name("k"), ks)
             self.assume(SBool(z3.And(z3.Select(d.has, kx), z3.Not(z3.Select(P, kx)))))
             keyv = SSeq(kx, d.kkind, "int") if d.kkind in ("bytes", "tuple") else self.dict_dec_key(d, kx)
-            self.assign(target, (keyv, self.dict_dec(d, z3.Select(d.val, kx))), fr)
+            if getattr(it, "keys_only", False):
+                self.assign(target, keyv, fr)
+            else:
+                self.assign(target, (keyv, self.dict_dec(d, z3.Select(d.val, kx))), fr)
         else:
             if not self.decide(self.ev(st.test, fr)):
                 raise PathEnd("infeasible")
